@@ -4,3 +4,5 @@ INVARIANT SingleCommit
 CONSTANTS
   NCases = 0
   Recheck = FALSE
+  Precheck = FALSE
+  NMutators = 1
